@@ -3,7 +3,7 @@ CFG = {
     "audit": "Norad/Audit/C15.lean",
     "rule": ("groups/kerning/glyph-set triples written as format 1, 2 and 3 UFO trees and loaded with Font::load: every triple over a "
              "6-name colliding pool (A, @MMK_L_A, @MMK_L_@MMK_L_A, public.kern1.A, @MMK_R_A, public.kern2.A) with <=3 groups and <=1 pair (quick: "
-             "format 2; <=2 groups and <=2 pairs format 1) / <=3 pairs (thorough), each with no glyph or one glyph named like a group; "
+             "format 2; <=2 groups and <=2 pairs format 1, two-pair cases with the empty glyph set only) / <=3 pairs (thorough), each with no glyph or one glyph named like a group; "
              "plus random triples over a 34-name pool (prefix-only names, nested and re-forming legacy prefixes, non-ASCII, suffix-shaped names, "
              "groups on both sides, dangling kerning keys, missing groups/kerning files, interned non-glyph names); plus validator boundary "
              "maps through Font::save and format-3 loads. non-trivial = a legacy load with at least one group to duplicate, or a map "
